@@ -226,7 +226,8 @@ def check_mapping(ctx, name, m, mp, rng, label):
 
 
 def _facet_distance(refdom, slot, Y):
-    """max distance of the reference points Y (dim x n x npts) from the local facet `slot[k]` of the reference cell"""
+    """how far the reference points Y (dim x n x npts) are from lying IN the local facet `slot[k]` of the reference cell:
+    distance from the facet's affine hull, and violation of the convex-combination constraints"""
     V = refdom.p
     dim = V.shape[0]
     worst = 0.0
@@ -236,12 +237,16 @@ def _facet_distance(refdom, slot, Y):
         if dim == 1:
             worst = max(worst, float(np.abs(y - fv[:, :1]).max()))
             continue
-        # the facet lies in an affine hyperplane through its vertices: distance by least squares
         base = fv[:, :1]
         span = fv[:, 1:] - base
         coef, *_ = np.linalg.lstsq(span, y - base, rcond=None)
         resid = (y - base) - span @ coef
         worst = max(worst, float(np.abs(resid).max()))
+        if fv.shape[1] == dim:                        # simplicial facet: barycentric coordinates in [0, 1]
+            lam = np.vstack([1 - coef.sum(0), coef])
+            worst = max(worst, float(np.maximum(-lam, 0).max()), float(np.maximum(lam - 1, 0).max()))
+        else:                                         # quadrilateral face of the unit cube
+            worst = max(worst, float(np.maximum(-y, 0).max()), float(np.maximum(y - 1, 0).max()))
     return worst
 
 
@@ -323,13 +328,18 @@ def run(ctx, rng):
         warnings.simplefilter('ignore')
         for name, m in meshes(ctx, rng):
             ctx.hist('oracle_mesh', name)
-            mp = m.mapping()
-            label = 'affine' if isinstance(mp, MappingAffine) else 'iso'
-            check_mapping(ctx, name, m, mp, rng, label)
-            if label == 'affine':
-                affine_vs_iso(ctx, name, m, rng)
-                mi = MappingIsoparametric(m, m.elem(), m.bndelem)
-                check_mapping(ctx, name, m, mi, rng, 'iso')
-            divergence(ctx, name, m, rng)
+            try:
+                mp = m.mapping()
+                label = 'affine' if isinstance(mp, MappingAffine) else 'iso'
+                check_mapping(ctx, name, m, mp, rng, label)
+                if label == 'affine':
+                    affine_vs_iso(ctx, name, m, rng)
+                    mi = MappingIsoparametric(m, m.elem(), m.bndelem)
+                    check_mapping(ctx, name, m, mi, rng, 'iso')
+                divergence(ctx, name, m, rng)
+            except Exception as e:  # noqa: BLE001 - an exception of the code under test on a valid mesh is a failing input
+                import traceback
+                ctx.fail(f'exception:{name}', f'{type(e).__name__} while evaluating the mapping of {name}: {e}',
+                         {'mesh': name, 'doflocs': m.doflocs.tolist(), 't': m.t.tolist(), 'traceback': traceback.format_exc()[-1500:]})
     ctx.extra['oracle_max_discrepancy'] = dict(STAT)
     ctx.extra['oracle_tolerances'] = dict(TOL)
